@@ -13,6 +13,7 @@ import (
 
 	"verif/internal/core"
 	"verif/internal/dval"
+	"verif/internal/fx"
 	"verif/internal/plans"
 )
 
@@ -25,6 +26,20 @@ func main() {
 	switch os.Args[1] {
 	case "worker":
 		core.WorkerMain()
+	case "gen":
+		// regenerate the committed abstract schemas of the fixtures (spec/<name>.json)
+		for name := range fx.Sources {
+			f, err := fx.Load(name)
+			if err != nil {
+				fmt.Fprintln(os.Stderr, err)
+				exit(2)
+			}
+			if err := f.WriteDS(); err != nil {
+				fmt.Fprintln(os.Stderr, err)
+				exit(2)
+			}
+			fmt.Println("wrote", f.DSFile)
+		}
 	case "run":
 		if len(os.Args) < 4 {
 			fmt.Fprintln(os.Stderr, "usage: vcheck run <property> <tier>")
